@@ -4,7 +4,8 @@
    Part 2: the monitor's bookkeeping -- retry delay and reported time exclude stopped time outside
    the known class, nothing new starts after a cancellation, no time in the delay after one. *)
 From NextestModel Require Import Base.Str Base.Tac Model.Backoff Proofs.Backoff Model.Clocks
-  Model.UnitTimers Model.AbsTimers Model.UnitLife Proofs.Timers Proofs.UnitProps Proofs.DelayProps.
+  Model.UnitTimers Model.AbsTimers Model.UnitLife Proofs.Timers Proofs.UnitProps Proofs.DelayProps
+  Proofs.UnitLive.
 From Coq Require Import MSets.MSetPositive.
 Open Scope N_scope.
 
@@ -1137,4 +1138,205 @@ Proof.
       eapply IH; [|exact H]. eapply cut_inv_step; eassumption. }
   apply (G es (lsys0 c) y); [|exact H].
   split; [intros _; split; reflexivity|intros k dl un run []].
+Qed.
+
+(* ============================================================ Part 3: the unit ends
+   Once a cancel request has been delivered, from wherever the unit is there is a continuation the
+   environment can produce -- the child's exit is reported, the leak timeout passes, the
+   dispatcher's repeated OtherCancel is consumed, the handshake is refused -- after which the unit
+   has ended, without a further attempt and without any time spent in a retry delay (the latter is
+   built into [lenv_ok true]). *)
+Definition is_done (p : phase) : bool := match p with PDone => true | _ => false end.
+Definition nonreq (e : uevent) : bool := match e with Req _ => false | _ => true end.
+
+(* the state after es when no step on the way completes the attempt *)
+Fixpoint upath (tbl : ptable) (cfg : ucfg) (u : ustate) (es : list uevent) : option ustate :=
+  match es with
+  | [] => Some u
+  | e :: es' =>
+      match ustep tbl cfg u e with
+      | Ok (u', _) => if is_done (ph u') then None else upath tbl cfg u' es'
+      | Panicked => None
+      end
+  end.
+
+Lemma first_done tbl cfg : forall es u r,
+  urun tbl cfg u es = Ok r -> ph (fst r) = PDone -> ph u <> PDone ->
+  exists es1 e es2 u1 u2 o2,
+    es = es1 ++ e :: es2 /\ upath tbl cfg u es1 = Some u1 /\
+    ustep tbl cfg u1 e = Ok (u2, o2) /\ ph u2 = PDone.
+Proof.
+  induction es as [|e es IH]; intros u r H Hd Hnd; cbn [urun] in H.
+  - injection H as <-. contradiction.
+  - destruct (ustep tbl cfg u e) as [[u' o']|] eqn:E; cbn [obind] in H; [|discriminate].
+    cbn [fst snd] in H.
+    destruct (urun tbl cfg u' es) as [r2|] eqn:E2; cbn [obind] in H; [|discriminate].
+    injection H as <-. cbn [fst] in Hd.
+    destruct (is_done (ph u')) eqn:Hdn.
+    + exists [], e, es, u, u', o'. repeat split; try assumption.
+      destruct (ph u'); try discriminate. reflexivity.
+    + destruct (IH u' r2 E2 Hd) as (es1 & e1 & es2 & u1 & u2 & o2 & -> & Hp & Hs & Hd2).
+      { intros Hx. rewrite Hx in Hdn. discriminate. }
+      exists (e :: es1), e1, es2, u1, u2, o2. repeat split; try assumption.
+      cbn [upath]. rewrite E, Hdn. exact Hp.
+Qed.
+
+Lemma lenv_ok_attempt_nonreq unicast s t u e :
+  l_ph s = LAttempt u -> nonreq e = true -> lenv_ok unicast s t (LU e) = true.
+Proof. intros Hp Hn. destruct e; try reflexivity; [cbn [lenv_ok]; rewrite Hp; reflexivity|discriminate]. Qed.
+
+Lemma attempt_follow unicast tbl c : forall es1 y u u1,
+  l_ph (y_s y) = LAttempt u -> upath tbl (lc_unit c) u es1 = Some u1 -> forallb nonreq es1 = true ->
+  exists y1, lsys_run unicast tbl c y (map LU es1) = LOk y1 /\
+             y_s y1 = with_lph (y_s y) (LAttempt u1) /\ y_t y1 = y_t y.
+Proof.
+  induction es1 as [|e es1 IH]; intros y u u1 Hp Hpath Hnr.
+  - cbn in Hpath. injection Hpath as <-. exists y. split; [reflexivity|]. split; [|reflexivity].
+    destruct (y_s y); cbn in *; subst; reflexivity.
+  - cbn [upath] in Hpath. cbn [forallb] in Hnr. apply andb_prop in Hnr as [Hn Hnr].
+    destruct (ustep tbl (lc_unit c) u e) as [[u' o']|] eqn:E; [|discriminate].
+    destruct (is_done (ph u')) eqn:Hdn; [discriminate|].
+    cbn [map lsys_run]. unfold lsys_step.
+    rewrite (lenv_ok_attempt_nonreq unicast (y_s y) (y_t y) u e Hp Hn).
+    unfold lstep. rewrite Hp, E.
+    assert (Hphase : exists q, ph u' = q /\ q <> PDone)
+      by (exists (ph u'); split; [reflexivity|intros Hx; rewrite Hx in Hdn; discriminate]).
+    destruct (ph u') as [|x| | |] eqn:Hph'; try discriminate.
+    all: match goal with |- context [lsys_run _ _ _ ?Y (map LU _)] =>
+           destruct (IH Y u' u1) as (y1 & Hr & Hs & Ht); [reflexivity|exact Hpath|exact Hnr|];
+           exists y1; split; [exact Hr|]; split;
+           [rewrite Hs; reflexivity
+           |rewrite Ht; cbn [y_t]; destruct e; try reflexivity; discriminate]
+         end.
+Qed.
+
+Lemma ends_from_delay unicast tbl c y d :
+  l_ph (y_s y) = LDelay d -> d_done d = false ->
+  exists y', lsys_run unicast tbl c y [LU (Req ROtherCancel); LAnswer false] = LOk y' /\
+             terminal (y_s y') = true /\ l_k (y_s y') = l_k (y_s y).
+Proof.
+  intros Hp Hdn. cbn [lsys_run]. unfold lsys_step at 1.
+  assert (Hok : lenv_ok unicast (y_s y) (y_t y) (LU (Req ROtherCancel)) = true).
+  { cbn [lenv_ok]. unfold consuming. rewrite Hp. reflexivity. }
+  rewrite Hok. rewrite (cancel_ends_delay tbl c (y_s y) d ROtherCancel Hp Hdn eq_refl).
+  unfold lsys_step. cbn [y_s y_t lenv_ok l_ph with_lph mkl]. cbn [lstep l_ph with_lph mkl].
+  eexists. split; [reflexivity|]. split; reflexivity.
+Qed.
+
+Lemma ends_from_await_retry unicast tbl c y :
+  l_ph (y_s y) = LAwaitRetry ->
+  exists y', lsys_run unicast tbl c y [LAnswer false] = LOk y' /\
+             terminal (y_s y') = true /\ l_k (y_s y') = l_k (y_s y).
+Proof.
+  intros Hp. cbn [lsys_run]. unfold lsys_step. cbn [lenv_ok]. rewrite Hp. cbn [negb andb].
+  unfold lstep. rewrite Hp. eexists. split; [reflexivity|]. split; reflexivity.
+Qed.
+
+(* the side conditions of UnitLive.unit_can_always_finish hold along the whole life *)
+Definition winv (y : lsys) : Prop :=
+  match l_ph (y_s y) with
+  | LAttempt u => live_wf u /\ ph u <> PDone
+  | LDelay d => d_done d = false
+  | _ => True
+  end.
+
+Lemma winv_init c : winv (lsys0 c).
+Proof. exact I. Qed.
+
+Lemma finish_attempt_shape c s u r : finish_attempt c s u = Ok r ->
+  l_k (fst r) = l_k s /\
+  (l_ph (fst r) = LFinishedP \/ exists dl, l_ph (fst r) = LDelay (dinit dl)).
+Proof.
+  unfold finish_attempt. intros H.
+  destruct (ures_success (uresult u)); [injection H as <-; split; [reflexivity|left; reflexivity]|].
+  destruct (l_k s <? lc_total c).
+  - destruct (b_next (lc_js c (l_k s)) (l_bs s)) as [[d bs']|]; [|discriminate].
+    injection H as <-. split; [reflexivity|right; exists d; reflexivity].
+  - injection H as <-. split; [reflexivity|left; reflexivity].
+Qed.
+
+Lemma winv_step unicast tbl c y e y' :
+  winv y -> lsys_step unicast tbl c y e = LOk y' -> winv y'.
+Proof.
+  unfold lsys_step. intros Hw H.
+  destruct (lenv_ok unicast (y_s y) (y_t y) e); [|discriminate].
+  destruct (lstep tbl c (y_s y) e) as [[s' o]|] eqn:Hl; [|discriminate].
+  injection H as <-. unfold winv in *. cbn [y_s].
+  unfold lstep in Hl. destruct (l_ph (y_s y)) as [|u|d| | |] eqn:Hp.
+  - destruct e as [ue| |[]]; injection Hl as <- _; try (rewrite Hp; exact I); cbn [l_ph mkl with_lph].
+    + split; [apply live_wf_init|discriminate].
+    + exact I.
+  - destruct e as [ue| |a]; try (injection Hl as <- _; rewrite Hp; exact Hw).
+    destruct Hw as [Hlw Hnd].
+    destruct (ustep tbl (lc_unit c) u ue) as [[u' outs]|] eqn:Hu; [|discriminate].
+    pose proof (live_wf_step tbl (lc_unit c) u ue (u', outs) Hlw Hu) as Hlw'. cbn [fst] in Hlw'.
+    destruct (ph u') eqn:Hph'.
+    5:{ destruct (finish_attempt c (y_s y) u') as [r|] eqn:Hf; cbn [obind] in Hl; [|discriminate].
+        injection Hl as <- _. destruct (finish_attempt_shape c (y_s y) u' r Hf) as [_ [E|[dl E]]];
+          rewrite E; [exact I|reflexivity]. }
+    all: injection Hl as <- _; cbn [l_ph with_lph mkl]; split; [exact Hlw'|rewrite Hph'; discriminate].
+  - destruct (devent_of e); [|injection Hl as <- _; rewrite Hp; exact Hw].
+    destruct (dstep tbl d d0) as [[d' outs]|]; [|discriminate].
+    destruct (d_done d') eqn:Hdd; injection Hl as <- _; cbn [l_ph with_lph mkl]; [exact I|exact Hdd].
+  - destruct e as [ue| |[]]; injection Hl as <- _; try (rewrite Hp; exact I); cbn [l_ph mkl with_lph].
+    + split; [apply live_wf_init|discriminate].
+    + exact I.
+  - injection Hl as <- _. rewrite Hp. exact I.
+  - injection Hl as <- _. rewrite Hp. exact I.
+Qed.
+
+Lemma winv_run unicast tbl c : forall es y y',
+  winv y -> lsys_run unicast tbl c y es = LOk y' -> winv y'.
+Proof.
+  induction es as [|e es IH]; intros y y' Hi H; cbn [lsys_run] in H.
+  - injection H as <-. exact Hi.
+  - destruct (lsys_step unicast tbl c y e) as [y1| |] eqn:E; try discriminate.
+    eapply IH; [|exact H]. eapply winv_step; eassumption.
+Qed.
+
+Theorem unit_can_end tbl RS (Hcert : life_cert_with tbl RS = true) (Hd : dcert tbl = true) unicast c y :
+  linv RS c (y_s y) (y_t y) -> winv y -> l_ph (y_s y) <> LAwaitStart ->
+  exists es y', lsys_run unicast tbl c y es = LOk y' /\ terminal (y_s y') = true /\
+                l_k (y_s y') = l_k (y_s y).
+Proof.
+  intros Hli Hw Hns. destruct (l_ph (y_s y)) as [|u|d| | |] eqn:Hp.
+  - contradiction.
+  - (* mid-attempt: the child's exit and the leak timeout complete the attempt *)
+    unfold winv in Hw. rewrite Hp in Hw. destruct Hw as [[Hlw Hx] Hnd].
+    destruct (unit_can_always_finish tbl (lc_unit c) u Hlw Hx) as (r & Hr & Hdn & _).
+    destruct (first_done tbl (lc_unit c) (finishing u) u r Hr Hdn Hnd)
+      as (es1 & e & es2 & u1 & u2 & o2 & Hes & Hpath & Hstep & Hd2).
+    assert (Hnr : forallb nonreq (finishing u) = true) by reflexivity.
+    rewrite Hes, forallb_app in Hnr. apply andb_prop in Hnr as [Hnr1 Hnr2].
+    cbn [forallb] in Hnr2. apply andb_prop in Hnr2 as [Hne _].
+    destruct (attempt_follow unicast tbl c es1 y u u1 Hp Hpath Hnr1) as (y1 & Hrun1 & Hs1 & Ht1).
+    assert (Hli1 : linv RS c (y_s y1) (y_t y1))
+      by (exact (life_linv_run tbl RS Hcert Hd unicast c (map LU es1) y y1 Hli Hrun1)).
+    assert (Hp1 : l_ph (y_s y1) = LAttempt u1) by (rewrite Hs1; reflexivity).
+    assert (Hk1 : l_k (y_s y1) = l_k (y_s y)) by (rewrite Hs1; reflexivity).
+    (* the completing step *)
+    assert (Hb : l_k (y_s y1) + b_remaining (l_bs (y_s y1)) = lc_total c).
+    { destruct Hli1 as [Hb _]. unfold binv in Hb. rewrite Hp1 in Hb. exact Hb. }
+    destruct (finish_attempt_ok tbl RS c (y_s y1) u2 (y_t y1) Hb) as (r2 & Hf & _).
+    destruct (finish_attempt_shape c (y_s y1) u2 r2 Hf) as [Hk2 Hshape].
+    assert (Hstep2 : exists y2, lsys_step unicast tbl c y1 (LU e) = LOk y2 /\ y_s y2 = fst r2).
+    { unfold lsys_step. rewrite (lenv_ok_attempt_nonreq unicast (y_s y1) (y_t y1) u1 e Hp1 Hne).
+      unfold lstep. rewrite Hp1, Hstep, Hd2, Hf. cbn [obind fst]. eexists. split; reflexivity. }
+    destruct Hstep2 as (y2 & Hst2 & Hs2).
+    destruct Hshape as [E|[dl E]].
+    + exists (map LU es1 ++ [LU e]), y2. rewrite lsys_run_app, Hrun1. cbn [lsys_run]. rewrite Hst2.
+      split; [reflexivity|]. rewrite Hs2. unfold terminal. rewrite E. split; [reflexivity|congruence].
+    + destruct (ends_from_delay unicast tbl c y2 (dinit dl)) as (y3 & Hr3 & Ht3 & Hk3);
+        [rewrite Hs2; exact E|reflexivity|].
+      exists (map LU es1 ++ LU e :: [LU (Req ROtherCancel); LAnswer false]), y3.
+      rewrite lsys_run_app, Hrun1. cbn [lsys_run] in Hr3 |- *. rewrite Hst2.
+      split; [exact Hr3|]. split; [exact Ht3|]. rewrite Hk3, Hs2. congruence.
+  - (* in the retry delay *)
+    unfold winv in Hw. rewrite Hp in Hw.
+    destruct (ends_from_delay unicast tbl c y d Hp Hw) as (y' & Hr & Ht & Hk).
+    exists [LU (Req ROtherCancel); LAnswer false], y'. repeat split; assumption.
+  - destruct (ends_from_await_retry unicast tbl c y Hp) as (y' & Hr & Ht & Hk).
+    exists [LAnswer false], y'. repeat split; assumption.
+  - exists [], y. split; [reflexivity|]. unfold terminal. rewrite Hp. split; reflexivity.
+  - exists [], y. split; [reflexivity|]. unfold terminal. rewrite Hp. split; reflexivity.
 Qed.
